@@ -10,7 +10,7 @@ from pathlib import Path
 from . import tlc
 from .common import CACHE, REPO, Check, seed, workers
 
-ALPHABETS = {"markup": "Markup", "expr": "Expr", "markup-small": "MarkupSmall", "expr-small": "ExprSmall"}
+ALPHABETS = {"markup": "Markup", "expr": "Expr", "markup-small": "MarkupSmall", "expr-small": "ExprSmall", "markup-breaks": "MarkupBreaks"}
 
 
 def enumerate_sources(chk: Check, focus: str, alphabet: str, maxlen: int, prefix: str = "", suffix: str = "",
@@ -21,8 +21,9 @@ def enumerate_sources(chk: Check, focus: str, alphabet: str, maxlen: int, prefix
     consts = {"Alphabet": f"<- {ALPHABETS[alphabet]}", "MaxLen": str(maxlen), "Prefix": q(prefix),
               "Suffix": q(suffix), "Focus": q(focus)}
     cfg = tlc.cfg_text(constants=consts, invariants=["Export"])
+    from .gen import CONCRETE
     r = tlc.run("MC_Strings", cfg, tag=f"strings-{focus}", simulate=simulate, depth=maxlen + 1 if simulate else None,
-                seed=seed() if simulate else None, timeout=3000)
+                seed=seed() if simulate else None, timeout=3000, extra_files={"concrete.json": CONCRETE})
     if r.error:
         chk.machinery_error = r.error
         r.cleanup()
